@@ -173,6 +173,15 @@ def w_words(acc, nwords, first_word, small):
     harness.run_cases(acc, "pair", o_pair, it, distinct_by_construction=True)
 
 
+def w_large(acc, n):
+    persons = ["AA%d bb CC%d" % (i, i) if i % 2 else "bb%d Dd%d, Jr, Ee {Ff%d}" % (i, i, i) for i in range(n)]
+    v = " and ".join(persons)
+    acc.run("pair", o_pair, v, True)
+    acc.run("stack", o_stack, {"field": "author", "value": v, "quote": False}, True)
+    acc.run("pair", o_pair, " ".join("AA%d" % i for i in range(n)) + " bb " + " ".join("CC%d" % i for i in range(n)), True)
+    acc.classes["large-list"] += 1
+
+
 def w_stack_enum(acc, nwords):
     cases = []
     for name in C13.word_level_names(nwords, WORDS14, C13.SEPS_SMALL):
@@ -241,6 +250,7 @@ def run(chk):
         tasks.append(("w_words", (full_words + 1, w0, True)))
     for nw in range(1, 4 if quick else 5):
         tasks.append(("w_stack_enum", (nw,)))
+    tasks += [("w_large", (n,)) for n in (130, 300, 1100)]
     n_rand = 12000 if quick else 300000
     shards = 8 if quick else 32
     for s in range(shards):
